@@ -722,7 +722,9 @@ impl Writer for UperWriter {
 
     #[inline]
     fn write_null<C: null::Constraint>(&mut self, _value: &Null) -> Result<(), Self::Error> {
-        Ok(())
+        // a NULL has no content, but it still is a component the enclosing SEQUENCE has to count
+        self.write_bit_field_entry(false, true)?;
+        self.with_buffer(|_| Ok(()))
     }
 }
 
@@ -1407,7 +1409,9 @@ impl<B: ScopedBitRead> Reader for UperReader<B> {
 
     #[inline]
     fn read_null<C: null::Constraint>(&mut self) -> Result<Null, Self::Error> {
-        Ok(Null)
+        // a NULL has no content, but it still is a component the enclosing SEQUENCE has to count
+        let _ = self.read_bit_field_entry(false)?;
+        self.with_buffer(|_| Ok(Null))
     }
 }
 
